@@ -188,9 +188,12 @@ fn refuse(size: usize, old: usize, is_realloc: bool) -> bool {
         return false;
     };
     if let Some(s) = sh {
-        s.refused_size.store(size as u64, Relaxed);
-        s.refused_old.store(old as u64, Relaxed);
-        s.refused_kind.store(kind, Relaxed);
+        // the first refusal of a probe is the one that is reported (the abort path may ask again)
+        if s.refused_kind.load(Relaxed) == 0 {
+            s.refused_size.store(size as u64, Relaxed);
+            s.refused_old.store(old as u64, Relaxed);
+            s.refused_kind.store(kind, Relaxed);
+        }
     }
     marker(kind, size, old);
     if DIAG_PANIC.load(Relaxed) != 0 {
